@@ -123,7 +123,10 @@ func wfSerializers(r *rand.Rand) []serializer {
 	for _, bb := range []struct {
 		name string
 		b    *bundle.Bundle
-	}{{"bundle b2", mkBundle(bversion.VersionB2, false, false)}, {"bundle b1 variants manifest", mkBundle(bversion.VersionB1, false, true)}, {"bundle b2 signatures", mkBundle(bversion.VersionB2, true, false)}} {
+	}{{"bundle b2", mkBundle(bversion.VersionB2, false, false)}, {"bundle b1 variants manifest", mkBundle(bversion.VersionB1, false, true)}, {"bundle b2 signatures", mkBundle(bversion.VersionB2, true, false)},
+		// the optional parts absent (what gen-bundle writes without -primaryURL): failure paths must not rely on them
+		{"bundle b2 bare", func() *bundle.Bundle { b := mkBundle(bversion.VersionB2, false, false); b.PrimaryURL, b.ManifestURL, b.Signatures = nil, nil, nil; return b }()},
+		{"bundle b2 empty", &bundle.Bundle{Version: bversion.VersionB2}}} {
 		b := bb.b
 		ss = append(ss, serializer{bb.name, func(w io.Writer) (int64, bool, error) { n, err := b.WriteTo(w); return n, true, err }})
 	}
